@@ -53,40 +53,40 @@ STRUCTURE_FAMILIES = ["method_name_clash", "names_body_idents", "mock_name_twice
                       "names_distinct", "fields_distinct", "names_tparams", "names_shadow_types", "names_qualifiers"]
 
 PROPS = {
-    "C01": dict(kind="gen", files=["P_C01.v", "GoTypes_Proofs.v", "Registry_Proofs.v", "P_C11.v"], theorems=[thm("C01_walk_visits_what_is_printed", "P_C01"), thm("populate_covers", "P_C01"), thm("C01_import_paths_sound", "P_C01"), thm("C01_refuted", "P_C01"), thm("C01_tparam_fixed", "P_C01"), thm("refs_eq_mentions_refuted", "GoTypes_Proofs")], oracle=O.o_c01, known=ALL_FAMILIES),
+    "C01": dict(kind="gen", files=["P_C01.v", "GoTypes_Proofs.v", "Registry_Proofs.v", "P_C11.v"], theorems=[thm("C01_walk_visits_what_is_printed", "P_C01"), thm("populate_covers", "P_C01"), thm("C01_import_paths_sound", "P_C01"), thm("C01_refuted", "P_C01"), thm("C01_tparam_fixed", "P_C01"), thm("rest_region_closed", "TmplRegion_rest"), thm("refs_eq_mentions_refuted", "GoTypes_Proofs")], oracle=O.o_c01, known=ALL_FAMILIES),
     "C02": dict(kind="gen", files=["P_C02.v", "P_C20.v"], theorems=[thm("C02_method_signature", "P_C02"), thm("C02_func_field_same_strings", "P_C02"), thm("C02_variadic_spelling", "P_C02"), thm("C02_method_arg", "P_C02")], oracle=O.o_c02,
                 known=["unexported_foreign", "not_a_method_set_interface", "method_name_clash", "mock_name_twice",
                        ]),
-    "C03": dict(kind="mock", files=["P_C03.v", "TmplClosed.v"], need="B",
+    "C03": dict(kind="mock", files=["P_C03.v", "TmplClosed.v", "TmplRegions.v"], need="B",
                 theorems=[thm("C03_call_core", "P_C03"), thm("C03_once_and_forward", "P_C03"),
                           thm("C03_plain_call", "P_C03"), thm("C03_histories", "P_C03"),
-                          thm("moq_template_control_closed", "TmplClosed")]),
-    "C04": dict(kind="mock", files=["P_C04.v", "TmplClosed.v"], need="BARXNC",
+                          thm("method_region_closed", "TmplRegion_method")]),
+    "C04": dict(kind="mock", files=["P_C04.v", "TmplClosed.v", "TmplRegions.v"], need="BARXNC",
                 theorems=[thm("C04_zero_value", "P_C04"), thm("C04_refines_list", "P_C04"),
                           thm("C04_record_shape", "P_C04"), thm("C04_before_func", "P_C04"),
                           thm("C04_recorded_despite_panic", "P_C04"), thm("C04_snapshot_stable", "P_C04"),
                           thm("canonical_components", "MockCheck"),
-                          thm("moq_template_control_closed", "TmplClosed")]),
-    "C05": dict(kind="mock", files=["P_C05.v", "MockConc.v", "MockConc_Proofs.v", "MockAcct_Proofs.v", "TmplClosed.v"],
+                          thm("method_region_closed", "TmplRegion_method"), thm("accessor_region_closed", "TmplRegion_accessor"), thm("reset_region_closed", "TmplRegion_reset")]),
+    "C05": dict(kind="mock", files=["P_C05.v", "MockConc.v", "MockConc_Proofs.v", "MockAcct_Proofs.v", "TmplClosed.v", "TmplRegions.v"],
                 need="DBARXNC",
                 theorems=[thm("C05_no_data_race", "P_C05"), thm("C05_access_under_lock", "P_C05"),
                           thm("C05_atomic_logs", "P_C05"), thm("C05_snapshots_never_change", "P_C05"),
                           thm("C05_prefix_between_resets", "P_C05"),
                           thm("C05_every_call_recorded_once", "P_C05"), thm("C05_quiescent", "P_C05"),
                           thm("C05_count", "P_C05"),
-                          thm("moq_template_control_closed", "TmplClosed")]),
-    "C06": dict(kind="mock", files=["P_C06.v", "MockConc.v", "MockConc_Proofs.v", "TmplClosed.v"], need="D",
+                          thm("method_region_closed", "TmplRegion_method"), thm("accessor_region_closed", "TmplRegion_accessor"), thm("reset_region_closed", "TmplRegion_reset")]),
+    "C06": dict(kind="mock", files=["P_C06.v", "MockConc.v", "MockConc_Proofs.v", "TmplClosed.v", "TmplRegions.v"], need="D",
                 theorems=[thm("C06_callback_holds_no_lock", "P_C06"), thm("C06_never_two_locks", "P_C06"),
                           thm("C06_deadlock_free", "P_C06"), thm("C06_reentrancy", "P_C06"),
-                          thm("moq_template_control_closed", "TmplClosed")]),
-    "C07": dict(kind="mock", files=["P_C07.v", "TmplClosed.v"], need="BM",
+                          thm("method_region_closed", "TmplRegion_method"), thm("accessor_region_closed", "TmplRegion_accessor"), thm("reset_region_closed", "TmplRegion_reset")]),
+    "C07": dict(kind="mock", files=["P_C07.v", "TmplClosed.v", "TmplRegions.v"], need="BM",
                 theorems=[thm("C07_panic", "P_C07"), thm("C07_panic_names", "P_C07"), thm("C07_stub", "P_C07"),
-                          thm("moq_template_control_closed", "TmplClosed")]),
-    "C08": dict(kind="mock", files=["P_C08.v", "TmplClosed.v"], need="BARXNC",
+                          thm("method_region_closed", "TmplRegion_method")]),
+    "C08": dict(kind="mock", files=["P_C08.v", "TmplClosed.v", "TmplRegions.v"], need="BARXNC",
                 theorems=[thm("C08_presence", "P_C08"), thm("C08_reset_one", "P_C08"),
                           thm("C08_reset_all", "P_C08"), thm("C08_restart", "P_C08"),
                           thm("canonical_components", "MockCheck"),
-                          thm("moq_template_control_closed", "TmplClosed")]),
+                          thm("method_region_closed", "TmplRegion_method"), thm("accessor_region_closed", "TmplRegion_accessor"), thm("reset_region_closed", "TmplRegion_reset")]),
     "C09": dict(kind="gen", files=["P_C09.v", "P_C02.v", "P_C20.v"], theorems=[thm("C09_tparams_shape", "P_C09"), thm("C09_tparams_count", "P_C09"), thm("C09_instances", "P_C09"), thm("C09_explicit_constraint", "P_C09"), thm("C09_tparam_names_verbatim", "P_C09"), thm("C09_selfcheck_refuted", "P_C09")], oracle=O.o_c09,
                 known=["self_check_not_instantiable", "constraint_unqualified_printer",
                        "walk_incomplete", "tparams_clash", "names_tparams", "not_a_method_set_interface",
